@@ -118,12 +118,13 @@ func (r *responseStorer) StoreResponse(
 		replacedID = refs[refIndex].ResponseID
 		refs[refIndex] = refEntry // Update existing response reference
 	}
-	// A reference equal to the new one (same variant, same identifier) is
-	// obsolete - e.g. an earlier response with "Vary: *", which never matches
+	// A reference equal to the new one (same identifier, same nominated fields
+	// and values - however the origin spelled its Vary value: "A, B", "B, A" and
+	// "a,b" name one variant) is obsolete - e.g. an earlier response with "Vary: *", which never matches
 	// and is stored again by every request. Dropping it keeps the references of
 	// an index distinct, so that it cannot grow beyond the number of variants.
 	for i := len(refs) - 1; i >= 0; i-- {
-		if i != refIndex && refs[i].ResponseID == responseID && refs[i].Vary == vary &&
+		if i != refIndex && refs[i].ResponseID == responseID &&
 			maps.Equal(refs[i].VaryResolved, varyResolved) {
 			refs = slices.Delete(refs, i, i+1)
 			if i < refIndex {
